@@ -25,13 +25,13 @@ fn page_ref(i: usize) -> &'static [u8; PG] {
     }
 }
 static mut FETCHED: [u32; 3] = [0; 3];
-// checksum stub: one symbolic constant per page, selected by the page's reserved byte [1]
+// checksum stub: one symbolic constant per page - the page fetched last (verify_checksum_helper
+// computes a page's checksum right after fetching it)
 static mut CK: [u128; 3] = [0; 3];
+static mut LAST_FETCHED: usize = 0;
 
-fn stub_checksum(data: &[u8]) -> Checksum {
-    let tag = data[1] as usize;
-    assert!(tag < 3);
-    unsafe { CK[tag] }
+fn stub_checksum(_data: &[u8]) -> Checksum {
+    unsafe { CK[LAST_FETCHED] }
 }
 
 #[cfg(not(debug_assertions))]
@@ -40,6 +40,7 @@ fn stub_get_page(_this: &PageResolver, page_number: PageNumber, _hint: PageHint)
     assert!(page_number.region == 0 && page_number.page_order == 0 && i < 3, "only pages of the tree are fetched");
     unsafe {
         FETCHED[i] += 1;
+        LAST_FETCHED = i;
         // Arc::new(array) + unsizing keeps the bytes' constants; Arc::from(slice) is a memcpy that loses them
         let arr: Arc<[u8; PG]> = Arc::new(*page_ref(i));
         let mem: Arc<[u8]> = arr;
@@ -82,7 +83,7 @@ fn any_widths() -> (Option<usize>, Option<usize>) {
 // @bound one 64-byte root page with arbitrary bytes after a type byte in {LEAF, 0x00, 0xFF}; fixed/variable key and value widths arbitrary among {None, Some}; expected checksum arbitrary; profile without debug assertions
 // @stubs PageResolver::get_page -> page from the harness table; xxh3_checksum -> per-page symbolic constant; alloc::fmt::format -> empty; crate::panicking -> false
 #[kani::proof]
-#[kani::unwind(4)]
+#[kani::unwind(2)]
 #[kani::stub(PageResolver::get_page, stub_get_page)]
 #[kani::stub(crate::tree_store::page_store::xxh3_checksum, stub_checksum)]
 #[kani::stub(alloc::fmt::format, no_format)]
@@ -135,7 +136,7 @@ fn single_page_case(type_byte: u8) {
 // @bound depth 2, one separator (2 bytes, variable width keys), two 64-byte children with arbitrary bytes (not branches), arbitrary stored checksums; profile without debug assertions
 // @stubs as c12_verify_single_page_tree
 #[kani::proof]
-#[kani::unwind(4)]
+#[kani::unwind(3)]
 #[kani::stub(PageResolver::get_page, stub_get_page)]
 #[kani::stub(crate::tree_store::page_store::xxh3_checksum, stub_checksum)]
 #[kani::stub(alloc::fmt::format, no_format)]
